@@ -199,6 +199,7 @@ def drive(sysm: Sys, prop: str, monitors: Sequence[Monitor], source: OpSource, s
         rec.jstate = jstate
         rec.state, rec.ts = util.to_np((jstate, jts))
         ctx.history.append(rec)
+        ctx.scratch["reset_key"] = op[1]
         stats.states.add(util.state_digest(rec.state))
         h.update(util.canon(op).encode())
         h.update(util.tree_digest((rec.state, rec.ts)).encode())
